@@ -508,7 +508,48 @@ impl Gen {
         st
     }
 
+    /// solved tactic: an under-margined trader deposits exactly enough to sit at maintenance (+0 / +1 ulp / -1 ulp),
+    /// then somebody tries to liquidate them
+    fn gen_boundary(&mut self, r: &mut Runner, rng: &mut Rng) -> Option<Step> {
+        let eng = r.obs.eng.clone()?;
+        let d = r.w.d;
+        let holders: Vec<(usize, String)> = r.obs.pos.iter().filter(|(_, p)| p.size != 0).map(|(k, _)| k.clone()).collect();
+        if holders.is_empty() {
+            return None;
+        }
+        let (v, t) = rng.pick(&holders).clone();
+        let pos = r.obs.position(v, &t)?.clone();
+        let pp = crate::oracles::engine_refs::pnl_pair_now(&r.w, v, &t)?;
+        let (_, n, pl) = pp.binding();
+        let f = funding_owed(r.obs.vamms[v].cum, pos.checkpoint, pos.size, d)?;
+        let target_ratio = eng.maintenance as i128 + *rng.pick(&[0i128, 1, -1, 0, 1]);
+        // smallest equity with trunc(E*D/n) == target
+        let e_needed = {
+            let num = target_ratio.checked_mul(n as i128)?;
+            let mut e = num / d as i128;
+            while smul_div(e, d as i128, n as i128)? < target_ratio {
+                e += 1;
+            }
+            e
+        };
+        let cur_e = pos.margin as i128 + pl - f;
+        let delta = e_needed - cur_e;
+        if delta <= 0 || delta as u128 > r.obs.bal(&t) {
+            return None;
+        }
+        let liquidator = (*rng.pick(&["liquidator", "stranger", "keeper"])).to_string();
+        self.plan.push(Step::new(&liquidator, Op::Liquidate { vamm: v, trader: t.clone(), limit: 0 }));
+        let mut st = Step::new(&t, Op::Deposit { vamm: v, amount: delta as u128 });
+        st.funds = if r.w.cfg.coll.is_native() { delta as u128 } else { 0 };
+        Some(st)
+    }
+
     fn gen_keeper(&mut self, r: &mut Runner, rng: &mut Rng) -> Step {
+        if matches!(self.profile.prop.as_str(), "C06" | "C07" | "C05" | "C16") && rng.chance(1, 6) {
+            if let Some(st) = self.gen_boundary(r, rng) {
+                return st;
+            }
+        }
         let v = self.pick_vamm(r, rng);
         if rng.chance(2, 5) {
             let actor = *rng.pick(&["keeper", "stranger", "liquidator", "trader0"]);
